@@ -77,12 +77,15 @@ package client
 //@ func (*IPClient).measureClockOffsetIP
 //@   noframe
 //@   requires c != nil && mtrcs != nil && localAddr != nil && remoteAddr != nil && c.Log != nil
-//@   requires !c.Auth.Enabled
+//@   requires c.Auth.Enabled ==> c.Auth.NTSKEFetcher.Log != nil
+//@   requires c.Auth.Enabled ==> c.Auth.NTSKEFetcher.VerifKeysOK()
 // The four timestamps handed to the offset formula belong to one exchange: in basic mode the request's own transmit
 // and the response's own receive time with the two server timestamps of that response; in interleaved mode (the
 // response's origin equals the receive timestamp of the previous exchange that the request carried) the previous
 // exchange's client timestamps and server receive timestamp with the transmit timestamp the server now reports for it.
 //@   loop 0 invariant calls("ntp.ClockOffset") == 0
+//@   loop 0 invariant c.Auth.Enabled == old(c.Auth.Enabled) && c.InterleavedMode == old(c.InterleavedMode)
+//@   loop 0 invariant c.Auth.Enabled ==> c.Auth.NTSKEFetcher.VerifKeys32()
 //@   loop 0 invariant c.prev.cTxTime == before(c.prev.cTxTime) && c.prev.cRxTime == before(c.prev.cRxTime) && c.prev.sRxTime == before(c.prev.sRxTime)
 //@   callsite ntp.ClockOffset 0 requires same(t2, sTxTime) && (interleavedResp ==> interleavedReq && ntpresp.OriginTime == c.prev.cRxTime)
 //@   callsite ntp.ClockOffset 0 requires !interleavedResp ==> same(t0, cTxTime1) && same(t1, sRxTime) && same(t3, cRxTime) && ntpresp.OriginTime == ntpreq.TransmitTime
@@ -91,11 +94,19 @@ package client
 // (assumption stated where the local receive timestamp has just been taken; obligation at the call).
 //@   callsite mtrcs.pktsReceived.Inc 0 scope cRxTime.Sub(cTxTime1) >= 0
 //@   callsite ntp.ValidateResponseTimestamps 0 requires !interleavedResp ==> t3.Sub(t0) >= 0
+// With NTS the offset is computed only from a datagram that nts.ProcessResponse accepted: its authenticator opened
+// under the server-to-client key of the exchange the request was built from, over the datagram's own bytes up to the
+// authenticator, and it carries the request's unique identifier.
+//@   callsite ntp.ClockOffset 0 requires c.Auth.Enabled ==> authenticated
+//@   callsite ntp.ClockOffset 0 requires authenticated ==> opened()
+//@   callsite ntp.ClockOffset 0 requires c.Auth.Enabled ==> opened() && sameslice(lastOpenKey(), ntskeData.S2cKey) && sameslice(lastOpenAD(), buf[:ntsresp.VerifAuthPos()]) && len(requestID) == len(ntsresp.UniqueID.ID) && forall(q, 0, len(requestID), requestID[q] == ntsresp.UniqueID.ID[q])
 //@   ensures reported: err == nil && c.Filter == nil ==> calls("ntp.ClockOffset") == 1
 //@   ensures accepted: err == nil ==> acceptable(lastpkt())
-//@   ensures sentlen: err == nil ==> len(lastsent()) == 48
+//@   ensures fetcherinv: c.Auth.Enabled ==> c.Auth.NTSKEFetcher.VerifKeysOK()
+//@   ensures sentlen: err == nil && !c.Auth.Enabled ==> len(lastsent()) == 48
 //@   ensures origin: err == nil && !c.InterleavedMode ==> echoes(lastpkt(), lastsent(), 40)
-//@   ensures origini: err == nil && c.InterleavedMode ==> echoes(lastpkt(), lastsent(), 40) || echoes(lastpkt(), lastsent(), 32)
+//@   ensures origini: err == nil && c.InterleavedMode && !c.Auth.Enabled ==> echoes(lastpkt(), lastsent(), 40) || echoes(lastpkt(), lastsent(), 32)
+//@   ensures originints: err == nil && c.InterleavedMode && c.Auth.Enabled ==> echoes(lastpkt(), lastsent(), 40) || echoes(lastpkt(), lastsent(), 32)
 
 // ---- the CSPTP client: whatever datagrams arrive, the measurement returns a result or an error (no crash) ----
 //@ func (*CSPTPClientIP).MeasureClockOffset
